@@ -497,3 +497,92 @@ Proof.
   - rewrite Forall_map. eapply Forall_impl; [|exact F]. cbn. intros w Hw. rewrite rsum_rscale.
     apply Rmult_integral_contrapositive_currified; assumption.
 Qed.
+
+(* ---- hunt-fix round: statements about the repaired code and the old code ---- *)
+
+(* every data set handed to get_fcn enters the NLL: as many FCNs as data sets *)
+Lemma fcn_parts_length {A D : Type} (ms : list A) (ds : list D) :
+  length ms = length ds -> length (fcn_parts ms ds) = length ds.
+Proof.
+  revert ds. induction ms as [|m ms IH]; intros [|d ds] H; cbn in *; try discriminate; try reflexivity.
+  f_equal. apply IH. now injection H.
+Qed.
+
+Lemma fcn_parts_sets {A D : Type} (ms : list A) (ds : list D) :
+  length ms = length ds -> map snd (fcn_parts ms ds) = ds.
+Proof.
+  revert ds. induction ms as [|m ms IH]; intros [|d ds] H; cbn in *; try discriminate; try reflexivity.
+  f_equal. apply IH. now injection H.
+Qed.
+
+Theorem every_data_set_enters {A D : Type} (entry : A + list A) (sets : list D) :
+  (forall l, entry = inr l -> length l = length sets) ->
+  map snd (fcn_parts (models_for_sets entry (length sets)) sets) = sets.
+Proof.
+  intros H. apply fcn_parts_sets. destruct entry as [x|l]; cbn.
+  - apply repeat_length.
+  - now apply H.
+Qed.
+
+(* old code: scalar bg_frac and two data sets -> one FCN *)
+Theorem old_scalar_entry_drops_sets_refuted :
+  exists (entry : R + list R) (sets : list nat),
+    (forall l, entry = inr l -> length l = length sets) /\
+    (length (fcn_parts (models_for_sets_old entry (length sets)) sets) < length sets)%nat.
+Proof.
+  exists (inl (1 / 5)), [0%nat; 1%nat]. split; [intros l H; discriminate|]. cbn. auto.
+Qed.
+
+(* old code: the list of models built for n1 data sets is reused for n2 > n1 (lru_cache without the number of sets) *)
+Theorem stale_model_list_drops_sets_refuted :
+  exists (entry : R + list R) (n1 : nat) (sets : list nat),
+    (length (fcn_parts (models_for_sets entry n1) sets) < length sets)%nat.
+Proof. exists (inl 0), 1%nat, [0%nat; 1%nat]. cbn. auto. Qed.
+
+(* old simple_cfit: the data efficiency is ignored (witness: eff = 1/2 on the single data event, no err_value column) *)
+Theorem simple_cfit_old_ignores_eff_refuted :
+  exists fb W e f b V eg g bm,
+    simple_cfit_call_old fb W e [1] f b V eg g bm <> simple_cfit_call fb W e f b V eg g bm.
+Proof.
+  exists (1 / 2), [1], [1 / 2], [1], [1], [1], [1], [1], [1].
+  unfold simple_cfit_call_old, simple_cfit_call, cfit_probs, cfit_prob, sig_of.
+  cbn [rzip map rdot rsum].
+  replace ((1 - 1 / 2) * (1 * 1) / (1 * (1 * 1) + 0) + 1 / 2 * 1 / (1 * 1 + 0)) with 1 by field.
+  replace ((1 - 1 / 2) * (1 / 2 * 1) / (1 * (1 * 1) + 0) + 1 / 2 * 1 / (1 * 1 + 0)) with (3 / 4) by field.
+  rewrite ln_1. assert (L : ln (3 / 4) < 0) by (rewrite <- ln_1; apply ln_increasing; lra).
+  lra.
+Qed.
+
+(* OPEN finding: below the clip threshold the non-extended NLL is NOT invariant under a common rescaling
+   (clip_log acts on the unnormalised density); witness: one event, all densities 1, scale 1e-8 *)
+Lemma ln100_gt_2 : 2 < ln 100.
+Proof.
+  rewrite <- (ln_exp 2). apply ln_increasing; [apply exp_pos|].
+  replace 2 with (1 + 1) at 1 by lra. rewrite exp_plus.
+  pose proof exp_le_3. pose proof (exp_pos 1). nra.
+Qed.
+
+Lemma nll_base_one_event c :
+  nll_base false [1] (rscale c [1]) [1] (rscale c [1]) = - (clip_log c - ln c).
+Proof.
+  unfold nll_base, alpha, sqs, rscale. cbn [map rsum rdot int_f].
+  replace (c * 1) with c by ring. replace ((1 * c + 0) / (1 + 0)) with c by field. field.
+Qed.
+
+Theorem nll_scale_below_clip_refuted :
+  exists c w f v g, 0 < c /\ nll_base false w (rscale c f) v (rscale c g) <> nll_base false w f v g.
+Proof.
+  exists (1 / 100000000), [1], [1], [1], [1]. split; [lra|].
+  rewrite nll_base_one_event.
+  replace (nll_base false [1] [1] [1] [1]) with (nll_base false [1] (rscale 1 [1]) [1] (rscale 1 [1]))
+    by (unfold rscale; cbn [map]; replace (1 * 1) with 1 by ring; reflexivity).
+  rewrite nll_base_one_event.
+  rewrite (clip_log_hi 1) by (unfold eps_clip; lra).
+  assert (E : 1 / 100000000 = eps_clip * / 100) by (unfold eps_clip; field).
+  assert (L : ln (1 / 100000000) = ln eps_clip - ln 100).
+  { rewrite E, ln_mult by (unfold eps_clip; lra). rewrite ln_Rinv by lra. lra. }
+  assert (C : clip_log (1 / 100000000) = ln eps_clip + (- (99 / 100)) - (99 / 100) * (99 / 100) / 2).
+  { unfold clip_log. destruct (Rlt_dec eps_clip (1 / 100000000)) as [H|H]; [unfold eps_clip in H; lra|].
+    unfold eps_clip. field. }
+  rewrite C, L. pose proof ln100_gt_2. lra.
+Qed.
